@@ -26,15 +26,16 @@
  * environment (OVNI_VERIF_EVBUF, bytes) so that every alignment of the
  * buffer-full boundary can be enumerated. Without the variable the
  * capacity is the regular OVNI_MAX_EV_BUF. */
-static const long long verif_evbuf_default = OVNI_MAX_EV_BUF;
-static long long
+static const size_t verif_evbuf_default = (size_t) OVNI_MAX_EV_BUF;
+static size_t
 verif_evbuf(void)
 {
-	static long long cap = 0;
+	static size_t cap = 0;
 	if (cap == 0) {
 		const char *e = getenv("OVNI_VERIF_EVBUF");
 		long long v = e ? atoll(e) : 0;
-		cap = (v >= 64 && v <= verif_evbuf_default) ? v : verif_evbuf_default;
+		cap = (v >= 64 && (size_t) v <= verif_evbuf_default)
+			? (size_t) v : verif_evbuf_default;
 	}
 	return cap;
 }
